@@ -2,6 +2,21 @@
 """Apply a seeded change to /repo, run the given checks, undo.  Usage: run_seeded.py <patch> Cxx [Cyy …]
 Prints per check: exit code and the VIOLATION lines.  /repo must be clean before and is clean after."""
 import json, os, subprocess, sys
+import atexit, shutil as _sh, tempfile as _tf
+# evidence files written while a seeded change is applied describe the CHANGED tree: keep the committed ones
+_VERIF = os.path.dirname(os.path.dirname(os.path.abspath(__file__)))
+_evbak = _tf.mkdtemp(prefix="evbak_", dir="/tmp")
+_sh.copytree(os.path.join(_VERIF, "evidence"), os.path.join(_evbak, "evidence"))
+
+
+def _restore_evidence():
+    dst = os.path.join(_VERIF, "evidence")
+    for fn in os.listdir(os.path.join(_evbak, "evidence")):
+        _sh.copy(os.path.join(_evbak, "evidence", fn), os.path.join(dst, fn))
+    _sh.rmtree(_evbak, ignore_errors=True)
+
+
+atexit.register(_restore_evidence)
 args = [a for a in sys.argv[1:] if a != "--scratch"]
 scratch = "--scratch" in sys.argv
 patch = os.path.abspath(args[0])
